@@ -50,6 +50,10 @@ func (x *Engine) dispatch(fr *Frame, st *State, cc *ssa.CallCommon, args []Val, 
 		if fs := x.db.Funcs[key]; fs != nil {
 			return x.applyContract(fr, st, fs, sig, args, p, key)
 		}
+		if strings.HasPrefix(key, repoPfx+"exporter/metric.") {
+			x.abstracted("metric exporter call skipped")
+			return resultVal(sig, x.freshResults(st, sig, "mx"))
+		}
 		// dynamic dispatch resolved statically when the receiver was built from a known concrete value
 		x.abstracted("invoke without contract: " + key)
 		x.degrade("interface call without contract: " + key)
@@ -143,7 +147,23 @@ func (x *Engine) inline(fr *Frame, st *State, callee *ssa.Function, args []Val, 
 		}
 	}
 	nf.entry = fr.entryState()
-	x.runBody(nf, callee.Blocks[0], st)
+	unroll := false
+	if len(nf.loops) > 0 {
+		for _, a := range args {
+			if a.Elems != nil {
+				unroll = true
+			}
+		}
+		if nf.spec != nil && nf.spec.Unroll {
+			unroll = true
+		}
+	}
+	if unroll {
+		budget := 600
+		x.runUnrolled(nf, callee.Blocks[0], nil, st.clone(), &budget)
+	} else {
+		x.runBody(nf, callee.Blocks[0], st)
+	}
 	x.finishFrame(nf)
 	// propagate panics
 	fr.panics = append(fr.panics, nf.panics...)
@@ -566,6 +586,18 @@ func (x *Engine) modKeyStatic(fs *FuncSpec, m *Clause) (keys []string, ok bool) 
 }
 
 func (x *Engine) sigOf(fs *FuncSpec) *types.Signature {
+	if fs.IsCallback {
+		k := strings.TrimSuffix(fs.Key, ".call")
+		i := strings.LastIndex(k, ".")
+		if pkg := x.pkgByPath(k[:i]); pkg != nil {
+			if tn, ok := pkg.Members[k[i+1:]].(*ssa.Type); ok {
+				if sg, ok := tn.Type().Underlying().(*types.Signature); ok {
+					return sg
+				}
+			}
+		}
+		return nil
+	}
 	if fs.IsIface {
 		if m := x.ifaceMethod(fs); m != nil {
 			return m.Type().(*types.Signature)
